@@ -309,6 +309,9 @@ def explore(fn, structure, max_paths=100000, max_seconds=600.0, sample_every=97,
                 n_unsupported += 1
                 if reason is None:
                     reason = 'Unsupported: %s\n%s' % (e, _where())
+                    import os
+                    if os.environ.get('VX_DEBUG'):
+                        traceback.print_exc()
                 status = 'unsupported'
                 if len(fallback) < 12:
                     try:
